@@ -187,7 +187,13 @@ def parseCOp (j : Json) : R Frappy.Control.Op := do
 
 def controlCfg (j : Json) : R (Frappy.Control.Cfg × List Nat) := do
   let outs ← fldNats j "outs"
-  return ({ n := outs.length, nout := ← fldNat j "nout", outOf := fun i => outs.getD i 0 }, outs)
+  let om := match j.getObjVal? "omit" with | .ok (.bool b) => b | _ => false
+  return ({ n := outs.length, nout := ← fldNat j "nout", outOf := fun i => outs.getD i 0, omitUnch := om }, outs)
+
+def optBools (j : Json) (k : String) : List Bool :=
+  match j.getObjVal? k with
+  | .ok (.arr a) => a.toList.map (fun x => match x with | .bool b => b | _ => false)
+  | _ => []
 
 def cevJson : Frappy.Control.Ev → Json
   | .cb o c => jarr [Json.str "cb", jnat o, jopt jnat c]
@@ -196,6 +202,8 @@ def cevJson : Frappy.Control.Ev → Json
 def cstJson (cfg : Frappy.Control.Cfg) (s : Frappy.Control.St) : Json :=
   Json.mkObj [("cb", jarr ((List.range cfg.nout).map (fun o => jopt jnat (s.cb o)))),
               ("act", jarr ((List.range cfg.n).map (fun i => Json.bool (s.act i)))),
+              ("cbP", jarr ((List.range cfg.nout).map (fun o => Json.bool (s.cbP o)))),
+              ("actP", jarr ((List.range cfg.n).map (fun i => Json.bool (s.actP i)))),
               ("evs", jarr (s.evs.map cevJson)), ("ok", Json.bool s.ok)]
 
 /-- the output whose `strong` expectation ends with this operation: a direct `deactivate_control` of one of its inputs -/
@@ -267,8 +275,10 @@ def handle (j : Json) : R Json := do
     return verdict (judgeLimits layers trace 0) (badIdxs (limitsOkB layers) trace 0)
   | "control" =>
     let (cfg, _) ← controlCfg j; let ops ← (← fldArr j "ops").mapM parseCOp
-    return Json.mkObj [("init", cstJson cfg Frappy.Control.init),
-                       ("states", jarr ((Frappy.Control.run cfg Frappy.Control.init ops).map (cstJson cfg)))]
+    let cbP0 := optBools j "cbP0"; let actP0 := optBools j "actP0"
+    let s0 : Frappy.Control.St := { Frappy.Control.init with cbP := fun o => cbP0.getD o false, actP := fun i => actP0.getD i false }
+    return Json.mkObj [("init", cstJson cfg s0),
+                       ("states", jarr ((Frappy.Control.run cfg s0 ops).map (cstJson cfg)))]
   | "judge_control" =>
     let (cfg, outs) ← controlCfg j; let ops ← (← fldArr j "ops").mapM parseCOp
     let sts ← (← fldArr j "trace").mapM parseCState
